@@ -14,17 +14,18 @@ def world(text, ref):
                 technique='TLA+ state-machine spec (World.tla): TLC edge enumeration replayed on the real code + TLC trace validation of recorded histories')
 
 W = ('TLC enumerates every edge of the %s model (MCWorld family %s) for small constants; each edge is replayed on the real '
-     'library after a real history reaching its pre-state and every recorded call, plus seeded random histories on several '
+     'library after real histories reaching its pre-state (a shortest one, a varied one, and one in which the objects are looked at '
+     'only at random moments) and every recorded call, plus seeded random histories on several '
      'element/key types, is validated by TLC against World.tla - result, panic flag, and the projection of every live object '
      '(frame condition) - %s')
 CLAIMED = {
  'C01': world(W % ('List/Array', '"list"', 'every index, slot and range around the bounds, aliased operands.'), 'DESIGN.md 4/C01'),
  'C02': world(W % ('Set', '"set"', 'three collators (natural, reversed, coarse); strict ascending order is a type invariant evaluated on every projected state.'), 'DESIGN.md 4/C02'),
- 'C03': world(W % ('Catalog', '"catalog"', 'GetKeys, AsArray, iterator, GetValue for every key and size are cross-checked by the projection; pointer keys with equal pointees included.'), 'DESIGN.md 4/C03'),
+ 'C03': world(W % ('Catalog', '"catalog", "keysC"', 'GetKeys, AsArray, iterator, GetValue for every key and size are cross-checked by the projection; pointer keys with equal pointees included.'), 'DESIGN.md 4/C03'),
  'C13': world(W % ('Stack', '"stack"', 'capacities 0..MaxLen and constructor arrays of 15, 16, 17 and 33 values around the default capacity.'), 'DESIGN.md 4/C13'),
- 'C14': world(W % ('Map', '"map"', 'unordered views are compared as sets of associations.'), 'DESIGN.md 4/C14'),
+ 'C14': world(W % ('Map', '"map", "keysM"', 'unordered views are compared as sets of associations.'), 'DESIGN.md 4/C14'),
  'C15': world(W % ('Set algebra', '"algebra"', 'all pairs of small sets incl. the same set twice, under three collators; purity is the frame condition.'), 'DESIGN.md 4/C15'),
- 'C16': world(W % ('Merge/Extract/Concatenate', '"merge", "catalogfn", "concat"', 'followed by one change of the result or an operand so that shared state shows as a frame violation.'), 'DESIGN.md 4/C16'),
+ 'C16': world(W % ('Merge/Extract/Concatenate', '"merge", "catalogfn", "extract", "concat"', 'followed by one change of the result or an operand so that shared state shows as a frame violation.'), 'DESIGN.md 4/C16'),
  'C17': world(W % ('Iterator', '"iter"', 'two iterators with every move and ToSlot(k) interleaved with mutations of the source; iterators of all kinds in random histories.'), 'DESIGN.md 4/C17'),
  'C18': world(W % ('aliasing', '"alias", "aliasA"', 'caller-owned Go arrays / maps are first-class objects of the world that the client pokes; any shared storage is a frame violation.'), 'DESIGN.md 4/C18'),
 }
@@ -73,7 +74,8 @@ CLAIMED.update({
  'C09': laws('MergeSort.tla (the algorithm, one ranker call per step) is checked by TLC against the sorting laws for every array up to '
              'length 6-7 and 7 rankers incl. inconsistent ones; TLC enumerates the same inputs for the real sorter and the Array / List / '
              'Catalog methods (plus random arrays up to 5000), every (input, ranker, output) is judged by TLC against SortLaws.tla, and '
-             'the logged comparison sequences are validated against the model.', 'DESIGN.md 4/C09',
+             'the logged comparison sequences are validated against the model; every pair of consecutive calls among the Sortable methods '
+             'and the mutations of List / Array / Catalog (MCWorld families "sort", "sortA") is replayed and judged against World.tla.', 'DESIGN.md 4/C09',
              'TLA+ algorithm model (MergeSort.tla) checked by TLC + TLC-enumerated inputs run on the real sorter + TLC validation of outputs (SortLaws.tla) and comparison traces'),
 })
 CNOTE = ('Trusted: TLC generating the documents / token sequences / values from Cdcn.tla and judging the recorded outcomes, the projection of '
